@@ -26,25 +26,25 @@ func init() {
 	registerProp(&Property{
 		ID: "C03", Kind: "necessary structural clauses (band clause sufficient with AFF-5)",
 		Tech:  "symbolic affine execution of the Y assignment, sibling-agreement on positioners, ownership table, reversal-guard dominance, running-extremum lint",
-		Rules: []string{"AFF-5", "EFF-3", "OWN-1", "PAIR-2", "EFF-1", "EFF-2", "ITER-1", "ORD-5", "ACYC-1", "AGG-1", "AFF-8", "ORD-4", "BAL-1", "DISP-1", "BAL-2"},
+		Rules: []string{"AFF-5", "EFF-3", "OWN-1", "PAIR-2", "EFF-1", "EFF-2", "ITER-1", "ORD-5", "ACYC-1", "AGG-1", "AFF-8", "ORD-4", "BAL-1", "DISP-1", "BAL-2", "DELTA-1"},
 		Explanation: "AFF-5 (all nodes of a layer get one Y; the next band starts layer.H + LayerSpacing lower) and EFF-3 (every positioner makes layer.H the max node height) give the band clause for every input. OWN-1: Layer only changes in phase 2, so bands are the layering; PAIR-2 + EFF-1 + OWN-1: ArrowHeadStart == IsReversed, toggled only by Reverse; " +
-			"EFF-2 + ITER-1 the un-reverse pass visits every edge of g.Edges and flips exactly the flagged ones (a pass that iterates a list Reverse removes from skips edges: flagged but still downward); ORD-5 acyclic inputs are never reversed; AGG-1/AFF-8 longest-path layers are computed from the final maximum; ORD-4 layers stay >= 0; BAL-1 the vertical balancer moves a node only inside the window [max over in-edges of From.Layer + Delta, min over out-edges of To.Layer - Delta], computed from the current layers inside the moving loop (so no edge becomes flat or upward). DISP-1's exclusivity clause and EFF-3's every-path clause: the band heights are recorded on every path of every positioner (seeded change C03g returned from a single-column fast path before the loop that records them). BAL-2 (contradiction rule on the horizontal balancer): where the balancer chooses between shifting the subtree at one end of a tree edge and the subtree at its other end, the two alternatives carry opposite signs (seeded changes C13d/C04d passed the same signed amount for both ends). Not decided: feasibility (span >= 1) of network simplex through tree construction and pivots, and of the horizontal balancer used by the NetworkSimplex positioner.",
+			"EFF-2 + ITER-1 the un-reverse pass visits every edge of g.Edges and flips exactly the flagged ones (a pass that iterates a list Reverse removes from skips edges: flagged but still downward); ORD-5 acyclic inputs are never reversed; AGG-1/AFF-8 longest-path layers are computed from the final maximum; ORD-4 layers stay >= 0; BAL-1 the vertical balancer moves a node only inside the window [max over in-edges of From.Layer + Delta, min over out-edges of To.Layer - Delta], computed from the current layers inside the moving loop (so no edge becomes flat or upward). DISP-1's exclusivity clause and EFF-3's every-path clause: the band heights are recorded on every path of every positioner (seeded change C03g returned from a single-column fast path before the loop that records them). BAL-2 (contradiction rule on the horizontal balancer): where the balancer chooses between shifting the subtree at one end of a tree edge and the subtree at its other end, the two alternatives carry opposite signs (seeded changes C13d/C04d passed the same signed amount for both ends). DELTA-1: the layering solver offsets a neighbour's layer by the edge's Delta, never by a constant (the network-simplex positioner runs the same solver with Delta = half widths + spacing; seeded change C12g hard-wired 1 in the initial ranking). Not decided: feasibility (span >= 1) of network simplex through tree construction and pivots, and of the horizontal balancer used by the NetworkSimplex positioner.",
 		Assumptions: []string{"floating-point sums are exact for the band clause up to rounding"},
 	})
 	registerProp(&Property{
 		ID: "C04", Kind: "necessary structural clauses (VAlign/PackRight sufficient)",
 		Tech:  "symbolic affine execution (recurrences of VAlign/PackRight, separation dominance of the NS positioner, Y assignment, component shift), ownership table",
-		Rules: []string{"AFF-4", "AFF-7", "FLOW-1", "AFF-5", "EFF-3", "OWN-1", "ORD-4", "PROG-1", "WIDTH-1", "OPTS-1", "BAL-2"},
+		Rules: []string{"AFF-4", "AFF-7", "FLOW-1", "AFF-5", "EFF-3", "OWN-1", "ORD-4", "PROG-1", "WIDTH-1", "OPTS-1", "BAL-2", "DELTA-1"},
 		Explanation: "AFF-4: VAlign and PackRight place neighbours exactly W + NodeSpacing apart, so no overlap and >= spacing for all widths >= 0; AFF-7: the NetworkSimplex positioner's separation constraint dominates W_left + spacing; FLOW-1 (with AFF-6): the next component starts at the rightmost edge + spacing; " +
-			"AFF-5/EFF-3: vertical disjointness of bands; OWN-1: X/Y only from phase 4; ORD-4: X = auxiliary layer >= 0; PROG-1: SinkColoring's overlap removal repeats only under a strict overlap test, moves the node to at least the compared bound, and compares with exactly the position it enforces (left neighbour + block width + spacing), so the fix-point implies the separation; WIDTH-1: a block's width is the maximum of its members' widths, so every node fits the slot reserved for its block. BAL-2 (contradiction rule on the horizontal balancer): where the balancer chooses between shifting the subtree at one end of a tree edge and the subtree at its other end, the two alternatives carry opposite signs (seeded changes C13d/C04d passed the same signed amount for both ends). Not decided: that SinkColoring's placeBlock fix-point is reached (an upper bound on the coordinates), finiteness, the integer rounding of the auxiliary graph, that the last node of a layer is the rightmost.",
+			"AFF-5/EFF-3: vertical disjointness of bands; OWN-1: X/Y only from phase 4; ORD-4: X = auxiliary layer >= 0; PROG-1: SinkColoring's overlap removal repeats only under a strict overlap test, moves the node to at least the compared bound, and compares with exactly the position it enforces (left neighbour + block width + spacing), so the fix-point implies the separation; WIDTH-1: a block's width is the maximum of its members' widths, so every node fits the slot reserved for its block. BAL-2 (contradiction rule on the horizontal balancer): where the balancer chooses between shifting the subtree at one end of a tree edge and the subtree at its other end, the two alternatives carry opposite signs (seeded changes C13d/C04d passed the same signed amount for both ends). DELTA-1: the layering solver offsets a neighbour's layer by the edge's Delta, never by a constant (the network-simplex positioner runs the same solver with Delta = half widths + spacing; seeded change C12g hard-wired 1 in the initial ranking). Not decided: that SinkColoring's placeBlock fix-point is reached (an upper bound on the coordinates), finiteness, the integer rounding of the auxiliary graph, that the last node of a layer is the rightmost.",
 		Assumptions: []string{"sizes and spacings are finite and non-negative (property hypothesis)"},
 	})
 	registerProp(&Property{
 		ID: "C05", Kind: "necessary structural clauses",
 		Tech:  "symbolic affine execution of the route anchors, SSA value-identity of the arrowhead flag, typed-AST output mapping, forward slice of the component shift",
-		Rules: []string{"AFF-1", "AFF-9", "PAIR-2", "PAIR-3", "PAIR-4", "FLOW-1", "DISP-1", "OPTS-1", "ORD-6"},
+		Rules: []string{"AFF-1", "AFF-9", "PAIR-2", "PAIR-3", "PAIR-4", "FLOW-1", "DISP-1", "OPTS-1", "ORD-6", "DIV-1"},
 		Explanation: "AFF-1: the first point of every non-flat route is (n.X + W/2, n.Y + H) of ns[0] and the last is (n.X + W/2, n.Y) of ns[len-1] for Straight, Polyline, Ortho and the 2-point spline; PAIR-2: flag = reversed, so after UnreverseEdges the flagged end is ToID; PAIR-3 output mapping; PAIR-4 route ends are real nodes; " +
-			"FLOW-1/AFF-6: points are shifted in x exactly like their nodes (the shift lands in the point stored in the output, not in a copy); AFF-9 end-control clause: every spline piece, MakeSpline's included, starts and ends at exactly the points it was given. That the algorithm the caller selected is the one that runs: OPTS-1 (no other option stores an algorithm on the side) and ORD-6 (after the option loop nothing overwrites the options record - seeded change C14f let Layout replace the selected cycle breaker when another option was present). Not decided: that ns[0] is the upper node on every input (depends on layering), fitted splines, finiteness.",
+			"FLOW-1/AFF-6: points are shifted in x exactly like their nodes (the shift lands in the point stored in the output, not in a copy); AFF-9 end-control clause: every spline piece, MakeSpline's included, starts and ends at exactly the points it was given. That the algorithm the caller selected is the one that runs: OPTS-1 (no other option stores an algorithm on the side) and ORD-6 (after the option loop nothing overwrites the options record - seeded change C14f let Layout replace the selected cycle breaker when another option was present). DIV-1 (a clause of 'all route points are finite'): in the geometry and routing packages every division by a value computed from coordinates is guarded by a branch that inspects the divisor, one reviewed exception aside (seeded change C05h dropped the zero-length guard of the normalisation; the spline router passes zero end tangents on purpose). Not decided: that ns[0] is the upper node on every input (depends on layering), fitted splines, finiteness.",
 		Assumptions: []string{"layering is feasible (C03, undecided part)"},
 	})
 	registerProp(&Property{
@@ -85,9 +85,9 @@ func init() {
 	registerProp(&Property{
 		ID: "C10", Kind: "necessary structural clauses",
 		Tech:  "SSA dominance lint on cut values, normaliser-order rule, loop-cap recogniser, balancing-window recogniser, ownership table",
-		Rules: []string{"RECOMP-1", "OPT-1", "TIGHT-1", "ORD-4", "CAP-1", "BAL-1", "OWN-1", "DISP-1", "OPTS-1", "ORD-6", "BAL-2"},
+		Rules: []string{"RECOMP-1", "OPT-1", "TIGHT-1", "ORD-4", "CAP-1", "BAL-1", "OWN-1", "DISP-1", "OPTS-1", "ORD-6", "BAL-2", "DELTA-1"},
 		Explanation: "RECOMP-1: cut values are a function of the current tree only (no read of a stale value); TIGHT-1: an edge enters the spanning tree only under slack == 0 or after the layers were shifted by its slack (the basis stays feasible); OPT-1: the pivot loop can stop (budget aside) only when a complete scan of the edge list finds no tree edge with negative cut value - the optimality criterion - and the enter edge is a strict minimum-slack candidate of a complete scan; ORD-4: the top band is 0 after balancing; CAP-1: the pivot loop honours the documented budget; OWN-1: Layer is not touched after phase 2; " +
-			"BAL-1: balancing moves only nodes whose move leaves total length unchanged (in-degree = out-degree) and only inside their feasible window. That the algorithm the caller selected is the one that runs: OPTS-1 (no other option stores an algorithm on the side) and ORD-6 (after the option loop nothing overwrites the options record - seeded change C14f let Layout replace the selected cycle breaker when another option was present). BAL-2 (contradiction rule on the horizontal balancer): where the balancer chooses between shifting the subtree at one end of a tree edge and the subtree at its other end, the two alternatives carry opposite signs (seeded changes C13d/C04d passed the same signed amount for both ends). Not decided: optimality and feasibility of the pivot sequence; contiguity of bands.",
+			"BAL-1: balancing moves only nodes whose move leaves total length unchanged (in-degree = out-degree) and only inside their feasible window. That the algorithm the caller selected is the one that runs: OPTS-1 (no other option stores an algorithm on the side) and ORD-6 (after the option loop nothing overwrites the options record - seeded change C14f let Layout replace the selected cycle breaker when another option was present). BAL-2 (contradiction rule on the horizontal balancer): where the balancer chooses between shifting the subtree at one end of a tree edge and the subtree at its other end, the two alternatives carry opposite signs (seeded changes C13d/C04d passed the same signed amount for both ends). DELTA-1: the layering solver offsets a neighbour's layer by the edge's Delta, never by a constant (the network-simplex positioner runs the same solver with Delta = half widths + spacing; seeded change C12g hard-wired 1 in the initial ranking). Not decided: optimality and feasibility of the pivot sequence; contiguity of bands.",
 		Assumptions: []string{"clauses are necessary, not sufficient"},
 	})
 	registerProp(&Property{
@@ -101,9 +101,9 @@ func init() {
 	registerProp(&Property{
 		ID: "C12", Kind: "necessary structural clauses",
 		Tech:  "ownership table, phi-pairing analysis of best-so-far, shift-bound lint, affine recurrences of the simple positioners",
-		Rules: []string{"OWN-1", "BEST-1", "SHIFT-1", "AFF-4", "FLOW-1"},
+		Rules: []string{"OWN-1", "BEST-1", "SHIFT-1", "AFF-4", "FLOW-1", "DELTA-1"},
 		Explanation: "Decides the 'carried unchanged' half: OWN-1 order state (LayerPos, order of Layer.Nodes) changes only in phase 3; BEST-1 the logged number belongs to the restored order; SHIFT-1 the layer filter is exact beyond 64 layers; AFF-4 for VAlign/PackRight x strictly follows order; FLOW-1 recurrence: the next component starts right of every node of the previous ones, helper nodes included, so components cannot cross each other. " +
-			"Not decided: exactness of the accumulator tree and radix sort; order preservation by SinkColoring/NetworkSimplex compaction.",
+			"DELTA-1: the layering solver offsets a neighbour's layer by the edge's Delta, never by a constant (the network-simplex positioner runs the same solver with Delta = half widths + spacing; seeded change C12g hard-wired 1 in the initial ranking). Not decided: exactness of the accumulator tree and radix sort; order preservation by SinkColoring/NetworkSimplex compaction.",
 		Assumptions: []string{"clauses are necessary, not sufficient"},
 	})
 	registerProp(&Property{
